@@ -20,7 +20,7 @@ from . import coqlit as L
 from .core import Relation, err_kind
 
 PROP = "C03"
-CLAIMED = False
+CLAIMED = True
 COQ_MODULES = ["C03_Check", "C03_Proofs"]
 PROPERTY_MODULE = "C03_Property"
 ALLOWED_AXIOMS = []
@@ -330,11 +330,11 @@ def obs_term(inp, obs):
 # ---- generator ---------------------------------------------------------------
 
 
-def gen_case(rng, tier="quick", force=None):
+def gen_case(rng, tier="quick", force=None, want_norep=None):
     """One output_vcf configuration. force: optional dict of fields to pin (used by corpus builders)."""
     r = rng.random
     malformed = None
-    norep = bool(r() < 0.35)
+    norep = bool(r() < 0.35) if want_norep is None else bool(want_norep)
     npopreal = int(rng.choice([1, 2, 3], p=[0.35, 0.45, 0.2]))          # populations P1..Pk of the model
     npop = npopreal + 1
     nref = int(rng.integers(max(2, npopreal), 7)) if not norep else int(rng.integers(3, 9))
@@ -352,7 +352,9 @@ def gen_case(rng, tier="quick", force=None):
     prefix = r() < 0.3
     fmt = str(rng.choice(["vcf.gz", "vcf.gz", "bcf", "pgen"]))
     out = str(rng.choice(["vcf.gz", "vcf", "bcf", "pgen"], p=[0.4, 0.2, 0.2, 0.2]))
-    identifiable = out != "pgen" and r() < 0.8   # PGEN output of unobserved middle alleles is C07's business
+    if want_norep:
+        out = str(rng.choice(["vcf.gz", "vcf", "bcf"]))
+    identifiable = out != "pgen" and (r() < 0.8 or bool(want_norep))   # PGEN output of unobserved middle alleles is C07's business
     # variants
     grid = [5, 10, 11, 20, 21, 30, 40, 41, 50, 60, 99, 100, 101, 150, 200]
     vars_, per_chrom_pos = [], {}
